@@ -183,7 +183,7 @@ FAULT_KINDS = collections.OrderedDict([
     ("EROFS", errno.EROFS),      # read-only (bind) mount: a plain OSError
     ("EIO", errno.EIO),
 ])
-QUICK_FAULTS = ["EPERM", "kill", "EROFS"]
+QUICK_FAULTS = ["EPERM", "kill"]
 
 
 def id_events(answers):
@@ -224,14 +224,14 @@ BOUNDS = {
                              "EVERY k (1..number of mutations of the un-faulted event in that state, max measured in "
                              "counters.max_mutations_of_one_event) x fault kinds %s; directories %s: every combination of {absent, "
                              "file, symlink->file, dangling symlink} at every marker location, and the same with a real directory "
-                             "(%s) at one location; shapes %s: reduced layouts + a real directory at one location; identifier "
-                             "absent, no identifier events" % (QUICK_FAULTS, FAULT_DIRS, MK_DIR, EXTRA),
+                             "(%s) at one location; shapes %s: reduced layouts + a real directory (%s) at one location; identifier "
+                             "absent, no identifier events" % (QUICK_FAULTS, FAULT_DIRS, MK_DIR[:1], EXTRA, MK_DIR),
               "depth": "closure (unbounded)"},
     "thorough": {"main_components": "as quick with machine-id kinds %s, all answers %s, plus every layout with one exotic "
                                     "kind %s at one location and any base kinds elsewhere" % (list(MID_KINDS), list(ANSWERS), MK_EXOTIC),
                  "extra_components": "as quick with all machine-id kinds and all answers",
                  "one_process": "length <= 5",
-                 "fault_units": "as quick with fault kinds %s" % list(FAULT_KINDS),
+                 "fault_units": "as quick with fault kinds %s and both directory kinds %s in the two-directory shapes" % (list(FAULT_KINDS), MK_DIR),
                  "depth": "closure (unbounded)"},
 }
 CAP_S = {"quick": 300, "thorough": 2400}
@@ -1198,7 +1198,7 @@ def units(tier, seed):
         for i, d in enumerate(dirs):
             if d in (1, 2):
                 for m in ("reg", "unreg"):
-                    for x in MK_DIR:
+                    for x in (MK_DIR if tier == "thorough" else MK_DIR[:1]):
                         us.append({"part": "fault", "dirs": list(dirs), "layouts": "full",
                                    "dirloc": ["%s%d" % (m, i + 1), x], "seed": seed})
     for dirs, order in EXTRA:
